@@ -165,3 +165,137 @@ Proof. exact same_location_place_refuted. Qed.
 Theorem C11_init_nonvacuous :
   match_place w2_single true (written_actx w2_single 0 1 (0, Some 10) 2 9) = Some (0%nat, 1, 10, (0, Some 10)).
 Proof. exact match_back_nonvacuous. Qed.
+
+(* ------------------------------------------------------------------------------------------------------------
+   (b, continued) the time-intersection rule of the activity matcher for BOTH kinds of time span, vehicle-specific
+   activities (optional breaks with a time window or an offset interval, with or without location; reloads), the dispatch
+   of try_match_point_job and read_init_solution's bookkeeping: the round trip of a whole written document.
+   Boundaries: every statement below that speaks about an interval allows the service to start at its first and at its
+   LAST moment (`<=`); seeded/C11-6 made the offset arm of TimeSpan::intersects strict at the last moment. *)
+Open Scope string_scope.
+
+(* TimeSpan::intersects is inclusive at both ends, for a time window and for an offset interval counted from `start` *)
+Theorem C11_init_span_intersects_inclusive : forall start ts te,
+  (forall ws we, span_intersects start (SWindow ws (Some we)) (ts, Some te) = true <-> ws <= te /\ ts <= we) /\
+  (forall ws, span_intersects start (SWindow ws None) (ts, Some te) = true <-> ws <= te) /\
+  (forall s e, span_intersects start (SOffset s e) (ts, Some te) = true <-> start + s <= te /\ ts <= start + e).
+Proof. exact span_intersects_kinds. Qed.
+(* an activity that starts anywhere in the interval - its first and its last moment included - intersects it *)
+Theorem C11_init_span_boundary : forall start sp ts te,
+  fst (to_window start sp) <= ts -> le_zo ts (snd (to_window start sp)) = true -> ts <= te ->
+  span_intersects start sp (ts, Some te) = true.
+Proof. exact span_intersects_inside. Qed.
+(* a span that is a time window does not depend on the instant offsets are counted from; a single without offset spans is
+   tagged and matched the same whatever that instant is *)
+Theorem C11_init_window_spans_ignore_start : forall s b st1 st2 loc w tm jid tag,
+  no_offsets s = true ->
+  get_job_tag s loc w st1 = get_job_tag s loc w st2 /\
+  match_place s b (mk_actx st1 loc tm jid tag) = match_place s b (mk_actx st2 loc tm jid tag).
+Proof. exact window_spans_ignore_start. Qed.
+
+(* match_place, any span kind (window: the window comes back; offset: the service interval comes back), customer job
+   (is_job = true: the ids must agree) or vehicle-specific job (is_job = false) *)
+Theorem C11_init_match_place_any_span : forall s is_job i p k sp start loc ts te jid,
+  nth_error (s_places s) i = Some p -> loc_ok p loc = true ->
+  nth_error (p_times p) k = Some sp ->
+  le_zo (fst (to_window start sp)) (snd (to_window start sp)) = true ->
+  span_intersects start sp (ts, Some te) = true ->
+  (forall j q, j <> i -> nth_error (s_places s) j = Some q ->
+     accepts q loc start (to_window start sp) = false /\ accepts q loc start (ts, Some te) = false) ->
+  (forall k' sp', (k < k')%nat -> nth_error (p_times p) k' = Some sp' -> span_intersects start sp' (ts, Some te) = false) ->
+  (is_job = true -> jid = s_id s) ->
+  match_place s is_job (mk_actx start loc (ts, te) jid (get_job_tag s loc (to_window start sp) start)) =
+    Some (i, loc, p_dur p, rebuilt_win sp te (p_dur p)).
+Proof. exact match_place_back_gen. Qed.
+(* an activity the solver placed (arrival not after the END of the window - equality allowed) is matched back to its place
+   from what the writer puts into the document, when writer and reader count offsets from the solver's departure or the
+   single has no offset span *)
+Theorem C11_init_placed_activity_matched : forall s start ws rs a i p k sp is_job jid,
+  placed s start a i p k sp -> starts_agree start ws rs s -> (is_job = true -> jid = s_id s) ->
+  match_place s is_job (mk_actx rs (sa_loc a) (sa_ts a, sa_te a) jid (get_job_tag s (sa_loc a) (sa_win a) ws)) =
+    Some (expected_place a i sp).
+Proof. exact match_place_written. Qed.
+(* break / reload / recharge: the n-th conditional job "<vehicle>_<type>_<shift>_<n>" is found when the n-1 tried before it
+   do not match (the fuel of the candidate enumeration is always enough) *)
+Theorem C11_init_vehicle_job_found : forall ix vid ty shift (ss : list single) s c m,
+  (forall j s', nth_error ss j = Some s' -> lookup ix (vjob_id vid ty shift (S j)) = Some (JSingle s')) ->
+  nth_error ss (Nat.pred (List.length ss)) = Some s ->
+  (forall j s', (S j < List.length ss)%nat -> nth_error ss j = Some s' -> match_place s' false c = None) ->
+  match_place s false c = Some m ->
+  try_match_vehicle_job ix vid ty shift c = Some (vjob_id vid ty shift (List.length ss), m).
+Proof. exact try_match_vehicle_job_at. Qed.
+(* two ways a candidate tried before the activity's own job is told apart: another tag, or no place that fits *)
+Theorem C11_init_candidate_told_apart : forall s b c,
+  same_tags (get_job_tag s (c_loc c) (act_win c) (c_start c)) (c_tag c) = false \/
+  (forall p, In p (s_places s) -> accepts p (c_loc c) (c_start c) (act_win c) = false) ->
+  match_place s b c = None.
+Proof. exact candidate_told_apart. Qed.
+(* try_match_point_job on a well written activity (customer single job, sub-job of a multi job, break / reload / recharge):
+   its own job, sub-job and place *)
+Theorem C11_init_written_activity_matched : forall ix vid shift start ws rs a i sp,
+  well_written ix vid shift start ws rs a i sp ->
+  try_match_point_job ix vid shift (write_act ws rs a) =
+    inr (MJob (sa_key a) (is_single_key ix (sa_key a)) (sa_sub a) (expected_place a i sp)).
+Proof. exact try_match_written. Qed.
+(* one tour: the activities come back in document order, each with the place the solver used, no double-assignment refusal *)
+Theorem C11_init_tour_roundtrip : forall ix actors t added,
+  stour_ok ix actors t ->
+  NoDup (single_keys ix (st_items t)) ->
+  (forall k, In k (single_keys ix (st_items t)) -> ~ In k added) ->
+  read_acts ix (st_vid t) (st_shift t) (t_acts (doc_tour t)) added =
+    inr (map item_ract (st_items t), (List.rev (tour_keys (st_items t)) ++ added)%list).
+Proof. exact read_tour_written. Qed.
+(* the whole document: read without error, the same activities on the same vehicle shifts in the same order at the places
+   the solver used, and the same unassigned set U (us = the part of U the writer lists: the customer jobs; the conditional
+   jobs that were not served come back through the completion step) *)
+Theorem C11_init_roundtrip : forall ix actors all_jobs tours us (U : list string),
+  Forall (stour_ok ix actors) tours ->
+  NoDup (single_keys ix (all_items tours)) ->
+  Forall (fun k => lookup ix k <> None) us ->
+  (forall k, In k all_jobs <-> In k (tour_keys (all_items tours)) \/ In k U) ->
+  (forall k, In k U -> ~ In k (tour_keys (all_items tours))) ->
+  incl us U ->
+  exists un, read_init ix actors all_jobs (map doc_tour tours) (map (fun k => (k, true)) us) = ROk (map expected_route tours) un
+             /\ forall k, In k un <-> In k U.
+Proof. exact init_roundtrip. Qed.
+(* sufficient for stour_ok: no reload in the tour, no job merged into the departure stop, every activity well written with
+   respect to the tour's departure *)
+Theorem C11_init_plain_tour_ok : forall ix actors t,
+  existsb (actor_eqb (st_vid t, st_type t, st_shift t)) actors = true ->
+  terminals (st_pre t) -> terminals (st_post t) ->
+  (forall a, In a (st_acts t) -> is_reload a = false) ->
+  doc_route_start (st_start t) (st_start_loc t) (st_acts t) = st_start t ->
+  Forall (fun it => well_written ix (st_vid t) (st_shift t) (st_start t) (st_start t) (st_start t)
+                                 (item_act it) (snd (fst it)) (snd it)) (st_items t) ->
+  stour_ok ix actors t.
+Proof. exact stour_ok_plain. Qed.
+(* both extra hypotheses of C11_init_plain_tour_ok are needed when offset spans are present - findings C11-F6 / C11-F7:
+   (F6) a job served at the start location right after departure moves the `departure` of the departure stop, from which the
+   reader counts the offsets;  (F7) after a reload the writer looks tags up with the departure of the activity before it *)
+Theorem C11_init_merged_departure_stop_refuted :
+  exists ix actors all_jobs t,
+    Forall (fun it => well_written ix (st_vid t) (st_shift t) (st_start t) (st_start t) (st_start t)
+                                   (item_act it) (snd (fst it)) (snd it)) (st_items t) /\
+    NoDup (single_keys ix (st_items t)) /\ terminals (st_pre t) /\ terminals (st_post t) /\
+    (forall a, In a (st_acts t) -> is_reload a = false) /\
+    doc_route_start (st_start t) (st_start_loc t) (st_acts t) <> st_start t /\
+    read_init ix actors all_jobs [doc_tour t] [] = RErr ECannotMatchVehicle.
+Proof. exact merged_departure_stop_refuted. Qed.
+Theorem C11_init_tag_after_reload_refuted :
+  exists ix actors all_jobs t,
+    Forall (fun it => well_written ix (st_vid t) (st_shift t) (st_start t) (st_start t) (st_start t)
+                                   (item_act it) (snd (fst it)) (snd it)) (st_items t) /\
+    NoDup (single_keys ix (st_items t)) /\ terminals (st_pre t) /\ terminals (st_post t) /\
+    doc_route_start (st_start t) (st_start_loc t) (st_acts t) = st_start t /\
+    (exists a, In a (st_acts t) /\ is_reload a = true) /\
+    read_init ix actors all_jobs [doc_tour t] [] = RErr ECannotMatchVehicle.
+Proof. exact tag_after_reload_refuted. Qed.
+(* non-vacuity AT THE BOUNDARY: job1 is reached at the last second of its window [0,9], the optional break with the offset
+   interval [5,10] starts at departure + 10, job3 is unassigned: the hypotheses of C11_init_roundtrip hold for this tour and
+   the document is read back *)
+Theorem C11_init_boundary_nonvacuous :
+  stour_ok bd_ix bd_actors bd_tour /\
+  sa_ts bd_a1 = 9 /\ sa_ts bd_a2 = 0 + 10 /\
+  read_init bd_ix bd_actors ["job1"; "job2"; "job3"; "v1_break_0_1"] [doc_tour bd_tour] [("job3", true)] =
+    ROk [expected_route bd_tour] ["job3"].
+Proof. exact boundary_nonvacuous. Qed.
